@@ -1,7 +1,70 @@
-(* C14 property theorems (placeholder while the pipeline is brought up). *)
+(* C14 property theorems.  Nothing but statements closed by `exact`, each followed by Print Assumptions.
+   Moduli lists: any length >= 1, any order, every modulus > 0, pairwise coprime (good_moduli).
+   "int" = IntRNSsystem (Integer residues), "dom" = RNSsystem<RING,Domain> (residues are domain elements).
+   Statements: ProofsSystem.v (Reciprocals_stmt, Garner_stmt, Unique_stmt, Inverse_stmt, *_history_stmt,
+   *_end_to_end_stmt, Functor_*_stmt). *)
 From Coq Require Import ZArith List.
-From C14 Require Import Model.
+From C14 Require Import Model ProofsArith ProofsGarner ProofsSystem.
 Import ListNotations.
 Local Open Scope Z_scope.
-Theorem C14_copy_example : snd (int_RnsToRing (int_copy FromPrimes (int_mk [3;5;7])) [1;2;3]) = 1. Proof. vm_compute. reflexivity. Qed.
-Print Assumptions C14_copy_example.
+
+(* modular inverse used for the reciprocals: exact for every modulus p > 0 and every b coprime to p *)
+Theorem C14_inverse_exact : forall b p, 0 < p -> Z.gcd b p = 1 -> (p | invmod b p * b - 1) /\ 0 <= invmod b p < p.
+Proof. exact invmod_spec. Qed.
+Print Assumptions C14_inverse_exact.
+
+(* ComputeCk: c_k (p_0 ... p_{k-1}) == 1 (mod p_k), 0 <= c_k < p_k *)
+Theorem C14_int_reciprocals : Reciprocals_stmt ComputeCk_int.   Proof. exact reciprocals_int. Qed.
+Print Assumptions C14_int_reciprocals.
+Theorem C14_dom_reciprocals : Reciprocals_stmt ComputeCk_dom.   Proof. exact reciprocals_dom. Qed.
+Print Assumptions C14_dom_reciprocals.
+
+(* RnsToMixedRadix + MixedRadixToRing: digits below their moduli, value in [0, prod), given residues *)
+Theorem C14_int_mixed_radix : Garner_stmt (fun ps rs => RnsToMixedRadix_int ps (ComputeCk_int ps) rs).
+Proof. exact garner_int. Qed.
+Print Assumptions C14_int_mixed_radix.
+Theorem C14_dom_mixed_radix : Garner_stmt (fun ps rs => RnsToMixedRadix_dom ps (ComputeCk_dom ps) rs).
+Proof. exact garner_dom. Qed.
+Print Assumptions C14_dom_mixed_radix.
+
+(* uniqueness of the integer in [0, prod) with given residues *)
+Theorem C14_unique : Unique_stmt.                               Proof. exact unique. Qed.
+Print Assumptions C14_unique.
+
+(* RingToRns and RnsToRing are mutually inverse (RnsToRing o RingToRns = reduction mod prod) *)
+Theorem C14_int_conversions_inverse : Inverse_stmt RnsToRing_int.   Proof. exact inverse_int. Qed.
+Print Assumptions C14_int_conversions_inverse.
+Theorem C14_dom_conversions_inverse : Inverse_stmt RnsToRing_dom.   Proof. exact inverse_dom. Qed.
+Print Assumptions C14_dom_conversions_inverse.
+
+(* every answer of a system object is that of a freshly constructed one, for EVERY history of constructors,
+   copies, assignments, setPrimes and earlier calls (copy map as in the repaired source: _ck from _ck) *)
+Theorem C14_int_history_independent : Int_history_stmt FromCk.  Proof. exact int_history. Qed.
+Print Assumptions C14_int_history_independent.
+Theorem C14_dom_history_independent : Dom_history_stmt.         Proof. exact dom_history. Qed.
+Print Assumptions C14_dom_history_independent.
+(* the copy map _ck(R._primes) of the unrepaired constructor does not have the property *)
+Theorem C14_int_copy_from_primes_refuted : ~ Int_history_stmt FromPrimes.
+Proof. exact int_history_from_primes_refuted. Qed.
+Print Assumptions C14_int_copy_from_primes_refuted.
+
+(* end to end: any history, canonical residues: RnsToRing is THE integer of [0, prod) with these residues *)
+Theorem C14_int_end_to_end : Int_end_to_end_stmt.               Proof. exact int_end_to_end. Qed.
+Print Assumptions C14_int_end_to_end.
+Theorem C14_dom_end_to_end : Dom_end_to_end_stmt.               Proof. exact dom_end_to_end. Qed.
+Print Assumptions C14_dom_end_to_end.
+
+(* ChineseRemainder<Ring,Domain,true> as repaired: the unique lift in [0, M*D) *)
+Theorem C14_functor_canonical : Functor_canonical_stmt cra_reduce_fixed.
+Proof. exact functor_fixed_canonical. Qed.
+Print Assumptions C14_functor_canonical.
+(* before the repair / REDUCE = false: right residues only *)
+Theorem C14_functor_unrepaired_congruent : Functor_congruent_stmt cra_reduce.
+Proof. exact functor_reduce_congruent. Qed.
+Print Assumptions C14_functor_unrepaired_congruent.
+Theorem C14_functor_unrepaired_range_refuted : ~ Functor_canonical_stmt cra_reduce.
+Proof. exact functor_reduce_canonical_refuted. Qed.
+Print Assumptions C14_functor_unrepaired_range_refuted.
+Theorem C14_functor_noreduce_congruent : Functor_congruent_stmt cra_noreduce.
+Proof. exact functor_noreduce_congruent. Qed.
+Print Assumptions C14_functor_noreduce_congruent.
